@@ -33,10 +33,15 @@ mode grid): all nodes / time levels under x = om 2^oe + 2^se xi (translated by 0
 grids of the length of the solution grid - the expected values do not depend on xf (ObsAffine, SeqObserveAffine) and 'equal' is
 equality node for node (SobsImplExact / TobsImplExact; deviation DevEqualWithinTolerance).  DATA LAYOUT AND TYPE: the same numbers
 as integer / float32 / non-contiguous / read-only arrays (time_obs and parameters also as lists).
+Second module specs/PDESolGrid.tla (helper cuqiverif/c18_solgrid.py): THE SOLUTION GRID is an ordered sequence too - grid_sol ascending /
+descending / permuted / two nodes swapped with the solution vector in that node order; Observe returns p(grid_obs[i]) whatever the
+numbering of the solution nodes (SolOrderExact, SolOrderInvariant; deviation DevAssumeSorted), the solution itself when grid_obs is
+grid_sol node for node (Restriction); steady class asserted (observe, assemble-solve-observe, PDEModel.forward), time class: exact
+restriction asserted, interpolation on a non-ascending solution grid only observed (RectBivariateSpline refuses).
 """
 META = {
     "claimed": True,
-    "engine": "PDE.tla",
+    "engine": "PDE.tla + PDESolGrid.tla",
     "text": ("TLC checks on the specification: A(th)u=f and the differentiated system (steady, 2x2/3x3, integer-affine dependence, "
              "solver return shapes array/(array,info)/(array,info1,info2)); every level of the forward/backward Euler state "
              "machine satisfies the documented discrete equation with operator A0+tA1 and source assembled at t_idx / t_idx+1 on "
@@ -97,8 +102,17 @@ META = {
              "magnitude of the nodes' must violate them (two cfgs: steady, time). "
              "Data layout and type: every sobs / tobs case a second time and every solve-mode behaviour with the same numbers as integer, "
              "float32 (only exactly representable values; tolerance 1e-6), non-contiguous and read-only arrays - grids, time levels, "
-             "time_obs (also as list), parameters (also as list on the PDE object), the initial condition returned by the form."),
-    "note": ("Bounded sizes (2-4 nodes for solve, 5x5 nodes for observation); interpolation on non-polynomial data at non-coinciding "
+             "time_obs (also as list), parameters (also as list on the PDE object), the initial condition returned by the form. "
+             "PDESolGrid.tla: the SOLUTION grid as an ordered sequence - 3 / 4 / 5 reference nodes in the node orders ascending, descending, "
+             "permuted, two nodes swapped, the solution vector (quadratic data, nodal values pairwise different: OrderVisible) in that "
+             "order, observation grids same / all nodes ascending / reversed / unsorted subset / midpoints ascending and not / mixed; "
+             "SolOrderExact (the specification's Observe - stored value at coinciding nodes, parabola through sorted pairs otherwise - "
+             "and the implementation-shaped sort-locate-evaluate both return p(grid_obs[i])), SolOrderInvariant (independent of the "
+             "numbering), Restriction (no interpolation iff node for node equal); the named deviation 'pairs taken as sorted' must "
+             "violate SolOrderExact; replayed on SteadyStateLinearPDE (observe, assemble-solve-observe, PDEModel.forward, maps id / sq "
+             "/ first) and on TimeDependentLinearPDE (last level itself when grid_obs is grid_sol and the final time is observed)."),
+    "note": ("Interpolation by TimeDependentLinearPDE on a solution grid that is not ascending is refused by scipy's RectBivariateSpline: "
+             "recorded (observation time_class_interpolation_on_unsorted_grid_sol), not asserted. ""Bounded sizes (2-4 nodes for solve, 5x5 nodes for observation); interpolation on non-polynomial data at non-coinciding "
              "points is not specified. 'all'/explicit observation needs >= 4 nodes and >= 4 time levels in the code (bicubic spline); "
              "smaller grids are recorded as an observation only. PDEModel with matrix-valued observations (several times) is "
              "exercised through observe(solve()) only. Sequences: depth <= 5 calls (quick) / 6 (thorough) after construct-assemble-"
@@ -1480,6 +1494,9 @@ def run(ctx):
     counts = _dispatch(ctx, cuqi, cases)
     observe_small_grids(ctx, cuqi)
     observe_list_grids(ctx, cuqi)
+    # the SOLUTION grid as an ordered sequence: descending / permuted node numbering (specs/PDESolGrid.tla)
+    from cuqiverif import c18_solgrid
+    counts["solgrid"] = c18_solgrid.run_part(ctx, cuqi)
     ctx.observe("cases_by_kind", counts)
     ctx.observe("seq_behaviours", {"emitted": len(seqs), "replayed": len(chosen), "sampled": sampled,
                                    "by_length": {str(n): sum(1 for c in chosen if len(c["hist"]) == n)
@@ -1524,6 +1541,9 @@ def replay(ctx, case):
     if case.get("kind") == "model":
         return run(ctx)
     cuqi = _pde_mod()
+    if case.get("kind") == "solgrid":
+        from cuqiverif import c18_solgrid
+        return c18_solgrid.run_part(ctx, cuqi, only=c18_solgrid.skey(case["c"]))
     fn = {"steady": check_steady, "time": check_time, "tobs": check_tobs, "sobs": check_sobs, "sseq": check_seq,
           "tseq": check_seq}[case["kind"]]
     for idx in range(12):          # all harness-side variants (default solver, kwargs, spelling of time_obs, ...)
